@@ -185,7 +185,8 @@ type world struct {
 	tags   map[string]int
 	salt   uint64
 	closed bool
-	dead   bool // a step timed out; no further operations
+	dead   bool                                        // a step timed out; no further operations
+	mkTx   func(salt, num, idx uint64, tx *simnode.Tx) // transactions of blocks added later (default transferMakeTx)
 }
 
 const stepTimeout = 4 * time.Second
@@ -674,9 +675,16 @@ func (w *world) head() uint64 {
 	return h
 }
 
+func (w *world) makeTx() func(salt, num, idx uint64, tx *simnode.Tx) {
+	if w.mkTx != nil {
+		return w.mkTx
+	}
+	return transferMakeTx
+}
+
 func (w *world) grow(k int) {
 	w.salt++
-	w.node.With(func(c *simnode.Chain) { c.Grow(k, simnode.GenOpts{Salt: w.salt, MakeTx: transferMakeTx}) })
+	w.node.With(func(c *simnode.Chain) { c.Grow(k, simnode.GenOpts{Salt: w.salt, MakeTx: w.makeTx()}) })
 	w.tags["grow"]++
 }
 
@@ -686,7 +694,7 @@ func (w *world) reorg(depth, newLen int) {
 		if depth >= len(c.Blocks) {
 			depth = len(c.Blocks) - 1
 		}
-		c.Reorg(depth, newLen, simnode.GenOpts{Salt: w.salt, MakeTx: transferMakeTx})
+		c.Reorg(depth, newLen, simnode.GenOpts{Salt: w.salt, MakeTx: w.makeTx()})
 	})
 	w.tags["reorg"]++
 }
